@@ -1158,8 +1158,16 @@ where
             .map(move |value| {
                 // The type of the new value will be `a` instead of `IO a`
                 let actual = resolve::remove_aliases_cow(&vm.get_env(), &mut NullInterner, &typ);
-                let actual = match **actual {
-                    Type::App(_, ref arg) => arg[0].clone(),
+                // A polymorphic action has the type `forall a . IO t`, look through the
+                // quantifiers and move them to the type of the result
+                let mut params = Vec::new();
+                let mut io_type: &ArcType = &actual;
+                while let Type::Forall(ref forall_params, ref inner) = **io_type {
+                    params.extend(forall_params.iter().cloned());
+                    io_type = inner;
+                }
+                let actual = match **io_type {
+                    Type::App(_, ref arg) => Type::forall(params, arg[0].clone()),
                     _ => ice!("ICE: Expected IO type found: `{}`", actual),
                 };
                 ExecuteValue {
